@@ -537,6 +537,7 @@ def mutants(repo):
         Mutant('preprocess-keeps-old-stage', lambda r: in_func(r, 'Builder.preprocess', "if new_stage is not stage:", "if new_stage is stage:"), ['C06.R9', 'C06.R1']),
         Mutant('flatten-ignores-premerge-result', lambda r: in_func(r, 'Builder.flatten', "if new_stage is not self.stages[0]:", "if new_stage is self.stages[0]:"), ['C06.R9']),
         Mutant('stage-count-frozen-before-expansion', lambda r: in_func(r, 'Builder.preprocess', "        i = 0\n        while i < len(self.stages):", "        i = 0\n        count = len(self.stages)\n        while i < count:"), ['C06.R9']),
+        Mutant('documents-without-keys-not-merged', lambda r: in_func(r, 'Builder.flatten', "            root = root.ayns.merge(self.stages[i])", "            if not self.stages[i].ayns.children_count():\n                continue\n            root = root.ayns.merge(self.stages[i])"), ['C06.R9']),
         Mutant('splice-reversed', lambda r: in_func(r, 'Builder.preprocess', "self.stages[i:i+1] = new_stage.stages", "self.stages[i:i+1] = reversed(new_stage.stages)"), ['C06.R1']),
         Mutant('cursor-advances-by-one', lambda r: in_func(r, 'Builder.preprocess', "i += len(new_stage.stages)", "i += len(new_stage.stages[:1])"), ['C06.R1']),
         Mutant('cwd-before-file-dir', lambda r: in_func(r, 'Builder.get_lookup_dirs', "        if ref_point is not None:\n            yield os.path.dirname(ref_point)\n        yield os.getcwd()", "        yield os.getcwd()\n        if ref_point is not None:\n            yield os.path.dirname(ref_point)"), ['C06.R2']),
